@@ -109,13 +109,18 @@ _RGB = [(200, 30, 40), (20, 180, 60)]
 _ALPHA = {4: 1.0, 2: 0.25}   # 0.25 * 255 = 63.75: rounding (64) and truncation (63) differ, no tie
 
 
+class _OutOfRange:
+    """a paint pointing past the end of the palette: reads as a colour no source has (reported by the comparison)"""
+    red, green, blue, alpha = -1, -1, -1, -1
+
+
 def _svg_for(colors, as_stops=False):
     """One rect per colour, z-order = list order.  colour = {v, a, idx, cur}.  as_stops: the colours are the stops of one
     linear gradient instead (palette variables and opacity are legal on <stop> too)."""
     if as_stops:
         stops = []
         for i, c in enumerate(colors):
-            rgb = "#%02X%02X%02X" % _RGB[c["v"]]
+            rgb = "currentColor" if c["cur"] else "#%02X%02X%02X" % _RGB[c["v"]]
             col = rgb if c["idx"] < 0 else f"var(--color{c['idx']}, {rgb})"
             op = "" if c["a"] == 4 else f' stop-opacity="{_ALPHA[c["a"]]}"'
             stops.append(f'<stop offset="{i / (len(colors) - 1):.4f}" stop-color="{col}"{op}/>')
@@ -124,7 +129,7 @@ def _svg_for(colors, as_stops=False):
     parts = ['<svg xmlns="http://www.w3.org/2000/svg" viewBox="0 0 100 100">']
     for i, c in enumerate(colors):
         if c["cur"]:
-            fill = "currentColor"
+            fill = "currentColor" if c["idx"] < 0 else f"var(--color{c['idx']}, currentColor)"
         else:
             rgb = "#%02X%02X%02X" % _RGB[c["v"]]
             fill = rgb if c["idx"] < 0 else f"var(--color{c['idx']}, {rgb})"
@@ -145,7 +150,7 @@ def _read_back(font, version, gname, ncolors):
             if layer.colorID == 0xFFFF:
                 out.append((None, 1.0, 0xFFFF))
             else:
-                c = cpal[layer.colorID]
+                c = cpal[layer.colorID] if layer.colorID < len(cpal) else _OutOfRange()
                 out.append(((c.red, c.green, c.blue), round(c.alpha / 255, 3), layer.colorID, c.alpha))
     else:
         t = colr.table
@@ -163,7 +168,7 @@ def _read_back(font, version, gname, ncolors):
             if s.PaletteIndex == 0xFFFF:
                 out.append((None, round(s.Alpha, 3), 0xFFFF))
             else:
-                c = cpal[s.PaletteIndex]
+                c = cpal[s.PaletteIndex] if s.PaletteIndex < len(cpal) else _OutOfRange()
                 out.append(((c.red, c.green, c.blue), round(s.Alpha, 3), s.PaletteIndex, c.alpha))
     return out
 
@@ -182,7 +187,7 @@ def _read_back_stops(font, gname):
         return None
     out = []
     for st in sorted(g.ColorLine.ColorStop, key=lambda x: x.StopOffset):
-        c = cpal[st.PaletteIndex]
+        c = cpal[st.PaletteIndex] if st.PaletteIndex < len(cpal) else _OutOfRange()
         out.append(((c.red, c.green, c.blue), round(st.Alpha, 3), st.PaletteIndex, c.alpha))
     return out
 
